@@ -240,12 +240,13 @@ def gen_case(chk, i):
 _CTX = {}
 
 
-def run_case(i, script=None, info=None):
+def run_case(i, script=None, info=None, wd=None):
     chk, drv = _CTX["chk"], _CTX["drv"]
     info = info or gen_case(chk, i)
-    wd = os.path.join(chk.scratch, "case-%d-%d" % (os.getpid(), i))
-    shutil.rmtree(wd, ignore_errors=True)
-    os.makedirs(wd)
+    if wd is None:
+        wd = os.path.join(chk.scratch, "case-%d-%d" % (os.getpid(), i))
+        shutil.rmtree(wd, ignore_errors=True)
+        os.makedirs(wd)
     env = {}
     if info.get("shortwrite"):
         env["RTDRV_SHORTWRITE"] = str(info["shortwrite"])
@@ -403,6 +404,39 @@ def run_segments(k):
     out["seg"] = "%s%s" % ("|".join(kinds), "" if last_flush else " (no last flush)")
     out["seg_script"] = script if out["viol"] else None
     return out
+
+
+def run_rerun(k):
+    """The program is run twice into the same trace directory with the same loom, pid
+    and thread ids (a job restarted without removing the old trace): what is in
+    the directory afterwards must be the second run's streams, exactly."""
+    chk, drv = _CTX["chk"], _CTX["drv"]
+    rng = chk.rng(k, "rerun")
+    sizes = [(1500, 60), (60, 1500), (300, 300), (40, 40)][k % 4]      # longer first, shorter first, similar
+    wd = os.path.join(chk.scratch, "rerun-%d-%d" % (os.getpid(), k))
+    shutil.rmtree(wd, ignore_errors=True)
+    os.makedirs(wd)
+    info = None
+    try:
+        for run, nops in enumerate(sizes):
+            ops, sh = gen_soup(rng, nops, big=0)
+            script = make_script([(1000 + k % 50, ops)])
+            info = {"case": k, "kind": "rerun", "script": script, "tmpdir": (k // 4) % 2 == 1, "autoflush_expected": None,
+                    "nostdin": False}
+            if run == 0:
+                env = {"OVNI_TMPDIR": os.path.join(wd, "tmp")} if info["tmpdir"] else {}
+                r = rt.run_script(drv, script, wd, env=env, timeout=120)
+                if r.rc != 0 or "RTDRV-DONE" not in r.out:
+                    return {"i": k, "kind": "rerun", "viol": ("driver-died:rerun-first", "first run died", r.brief()),
+                            "inconclusive": None, "events": 0, "markers": 0, "bytes": 0, "feat": set(), "shortwrites": 0,
+                            "aborted_on_fault": 0, "rerun_script": script}
+                shutil.rmtree(os.path.join(wd, "log"), ignore_errors=True)
+        out = run_case(400000 + k, info=info, wd=wd)
+        out["i"] = k
+        out["rerun_script"] = info["script"] if out["viol"] else None
+        return out
+    finally:
+        shutil.rmtree(wd, ignore_errors=True)
 
 
 def run_churn(k):
@@ -578,6 +612,17 @@ def main(argv):
             if out["viol"]:
                 key, what, obsv = out["viol"]
                 chk.report(key, what, {"churn": out["i"], "observation": obsv})
+        for out in core.pmap(run_rerun, list(range(8 if chk.tier == "quick" else 120))):
+            if out["inconclusive"]:
+                chk.note_inconclusive(out["inconclusive"]); continue
+            evaluated += 1
+            kinds[out["kind"]] = kinds.get(out["kind"], 0) + 1
+            for k in tot:
+                tot[k] += out[k]
+            if out["viol"]:
+                key, what, obsv = out["viol"]
+                chk.report(key + ":rerun", what + " [second run into the same trace directory]",
+                           {"rerun": out["i"], "script_head": (out.get("rerun_script") or "")[:2000], "observation": obsv})
         allseg = list(range(len(segment_scripts())))
         for out in core.pmap(run_segments, allseg):
             if out["inconclusive"]:
@@ -615,7 +660,7 @@ def main(argv):
         "rule": "op scripts (boundary sweep / op soup / dense autoflush / multi-thread / short-write / EINTR / no stdin; 2-3 "
                 "processes writing into one trace directory at once with equal pids on different looms or equal tids in "
                 "different processes; every sequence of 1-3 flush-separated segments of one operation kind each (events, jumbos, "
-                "marks, nothing); rounds of threads that come and go while others start (churndrv); streams padded to an exact multiple of 512 B .. 1 MiB) run on the "
+                "marks, nothing); a program run twice into one trace directory; rounds of threads that come and go while others start (churndrv); streams padded to an exact multiple of 512 B .. 1 MiB) run on the "
                 "ASan+UBSan libovni; a case counts when the driver finished and every stream was decoded and compared "
                 "with the emit log. distinct_nontrivial = distinct (normal|jumbo, payload size) classes seen in decoded "
                 "streams + flush-marker class + distinct boundary distances delta (MAX - fill level) generated",
